@@ -11,7 +11,7 @@ use crate::spec::*;
 
 /// Per-(world, archetype) query sites pinned to one archetype with its full column list.
 pub trait ArchSites<W> {
-    fn find_full(w: &mut W, borrow: bool, key: Key, write: Option<(usize, u64)>) -> Option<(Row, Option<gecs::prelude::EntityDirectAny>)>;
+    fn find_full(w: &mut W, borrow: bool, key: Key, write: Option<(usize, u64)>, byref: bool) -> Option<(Row, Option<gecs::prelude::EntityDirectAny>)>;
     fn iter_full(w: &mut W, borrow: bool, write: Option<(usize, usize, u64)>) -> Vec<(Row, Option<gecs::prelude::EntityDirectAny>)>;
     fn acc_find_borrow(w: &W, col: usize, mutable: bool, key: Key, k: &mut dyn FnMut(Obs)) -> bool;
     fn acc_iter_borrow(w: &W, col: usize, mutable: bool, k: &mut dyn FnMut(Bits, Obs) -> bool);
@@ -239,7 +239,35 @@ macro_rules! arch_spec {
         }
 
         impl ArchSites<$W> for $A {
-            fn find_full(w: &mut $W, borrow: bool, key: Key, write: Option<(usize, u64)>) -> Option<(Row, Option<EntityDirectAny>)> {
+            fn find_full(w: &mut $W, borrow: bool, key: Key, write: Option<(usize, u64)>, byref: bool) -> Option<(Row, Option<EntityDirectAny>)> {
+                // dynamic keys may also be passed by reference (`&EntityAny`, `&EntityDirectAny`)
+                if byref {
+                    match (key, borrow) {
+                        (Key::A(k), false) => {
+                            return ecs_find!(w, &k, |e: &Entity<$A>, d: &EntityDirectAny, $($f: &mut $C),*| {
+                                full_visit((*e).into_any(), *d, &mut [$(ColRef::W($f)),*], write)
+                            });
+                        }
+                        (Key::DA(k), false) => {
+                            return ecs_find!(w, &k, |e: &Entity<$A>, d: &EntityDirectAny, $($f: &mut $C),*| {
+                                full_visit((*e).into_any(), *d, &mut [$(ColRef::W($f)),*], write)
+                            });
+                        }
+                        (Key::A(mut k), true) => {
+                            let w: &$W = &*w;
+                            return ecs_find_borrow!(w, &mut k, |e: &Entity<$A>, d: &EntityDirectAny, $($f: &mut $C),*| {
+                                full_visit((*e).into_any(), *d, &mut [$(ColRef::W($f)),*], write)
+                            });
+                        }
+                        (Key::DA(mut k), true) => {
+                            let w: &$W = &*w;
+                            return ecs_find_borrow!(w, &mut k, |e: &Entity<$A>, d: &EntityDirectAny, $($f: &mut $C),*| {
+                                full_visit((*e).into_any(), *d, &mut [$(ColRef::W($f)),*], write)
+                            });
+                        }
+                        _ => {}
+                    }
+                }
                 if borrow {
                     let w: &$W = &*w;
                     with_key!(key, $A, |k| ecs_find_borrow!(w, k, |e: &Entity<$A>, d: &EntityDirectAny, $($f: &mut $C),*| {
@@ -399,9 +427,9 @@ macro_rules! world_spec {
                 $( c.$field = caps[$idx]; )*
                 <$W as World>::with_capacity(c)
             }
-            fn find_full(&mut self, ai: usize, borrow: bool, key: Key, write: Option<(usize, u64)>) -> Option<(Row, Option<EntityDirectAny>)> {
+            fn find_full(&mut self, ai: usize, borrow: bool, key: Key, write: Option<(usize, u64)>, byref: bool) -> Option<(Row, Option<EntityDirectAny>)> {
                 match ai {
-                    $( $idx => <$A as ArchSites<$W>>::find_full(self, borrow, key, write), )*
+                    $( $idx => <$A as ArchSites<$W>>::find_full(self, borrow, key, write, byref), )*
                     _ => panic!("sim: bad archetype index"),
                 }
             }
